@@ -112,6 +112,26 @@ def makeRes (r : Res Impl.MakeErr (Impl.Move × Impl.Board)) : String :=
   | .err e => "err:" ++ fmtMakeErr e ++ " unchanged=1"
   | .trap _ => "panic"
 
+def attackersStrM (b : Impl.Board) : String :=
+  let lists := [Color.white, Color.black].flatMap fun c => Sq.all.map fun s => hexBB (Impl.cellAttackers b s c)
+  let mask (c : Color) := hexBB (bbOfSqs (Sq.all.filter fun s => Impl.isCellAttacked b s c))
+  String.intercalate "," lists ++ " " ++ mask .white ++ " " ++ mask .black
+
+def checkStrM (b : Impl.Board) : String :=
+  match Impl.isCheck? b, Impl.checkers? b with
+  | some c, some k => bool01 c ++ " " ++ hexBB k
+  | _, _ => "panic"
+
+def attackersStrS (p : Spec.Pos) : String :=
+  let lists := [Color.white, Color.black].flatMap fun c =>
+    Sq.all.map fun s => hexBB (bbOfSqs (Spec.attackers p s c))
+  let mask (c : Color) := hexBB (bbOfSqs (Sq.all.filter fun s => Spec.attackedBy p s c))
+  String.intercalate "," lists ++ " " ++ mask .white ++ " " ++ mask .black
+
+def checkStrS (p : Spec.Pos) : String :=
+  let k := match Spec.kingSq p p.side with | some k => Spec.attackers p k p.side.inv | none => []
+  bool01 (Spec.inCheck p p.side) ++ " " ++ hexBB (bbOfSqs k)
+
 def opMPos (op : String) (raw : Impl.RawBoard) (rest : List String) : String :=
   match op, rest with
   | "gen", [w, l] =>
@@ -186,6 +206,17 @@ def opMPos (op : String) (raw : Impl.RawBoard) (rest : List String) : String :=
       match Impl.isCheck? b, Impl.checkers? b with
       | some c, some k => bool01 c ++ " " ++ hexBB k
       | _, _ => "panic"
+  | "queryafter", [mv] =>
+    withBoard raw fun b =>
+      match parseMove mv with
+      | none => "badop"
+      | some m =>
+        if !m.isWellFormed || !Impl.isSemilegal b m then "n/a" else
+        let (b', u) := Impl.makeMove b m
+        let legal := match Impl.isOpponentKingAttacked? b' with | some v => !v | none => false
+        let b'' := Impl.unmakeMove b' m u
+        (if legal then attackersStrM b' ++ " | " ++ checkStrM b' else "- | -")
+          ++ " | " ++ attackersStrM b'' ++ " | " ++ checkStrM b''
   | "outcome", [] =>
     withBoard raw fun b =>
       match Impl.calcOutcome? b, Impl.hasLegalMoves? b, Impl.isCheck? b with
@@ -193,6 +224,21 @@ def opMPos (op : String) (raw : Impl.RawBoard) (rest : List String) : String :=
         fmtOutcome o ++ " " ++ (match Impl.calcDrawSimple b with | none => "none" | some r => fmtDrawReason r)
           ++ " " ++ bool01 h ++ " " ++ bool01 c
       | _, _, _ => "panic"
+  | "outcomeafter", [mv] =>
+    withBoard raw fun b =>
+      match parseMove mv with
+      | none => "badop"
+      | some m =>
+        if !m.isWellFormed then "n/a" else
+        match Impl.makeMoveChecked b m with
+        | .ok b' =>
+          (match Impl.calcOutcome? b', Impl.hasLegalMoves? b', Impl.isCheck? b' with
+           | some o, some h, some c =>
+             fmtOutcome o ++ " " ++ (match Impl.calcDrawSimple b' with | none => "none" | some r => fmtDrawReason r)
+               ++ " " ++ bool01 h ++ " " ++ bool01 c
+           | _, _, _ => "panic")
+        | .err _ => "n/a"
+        | .trap _ => "panic"
   | "fenformat", [] => fmtStr (Impl.fmtFen raw)
   | "uciinto", [s, mode] =>
     withBoard raw fun b =>
@@ -356,6 +402,16 @@ def opSPos (op : String) (raw : Impl.RawBoard) (rest : List String) (impl : Stri
     withPos raw impl fun p =>
       let k := match Spec.kingSq p p.side with | some k => Spec.attackers p k p.side.inv | none => []
       expect (bool01 (Spec.inCheck p p.side) ++ " " ++ hexBB (bbOfSqs k)) impl
+  | "queryafter", [mv] =>
+    withPos raw impl fun p =>
+      match (parseMove mv).bind absMove with
+      | none => expect "n/a" impl
+      | some sm =>
+        if !(Spec.pseudoMoves p).contains sm then expect "n/a" impl else
+        let after := Spec.apply p sm
+        let legal := !Spec.inCheck after p.side
+        expect ((if legal then attackersStrS after ++ " | " ++ checkStrS after else "- | -")
+          ++ " | " ++ attackersStrS p ++ " | " ++ checkStrS p) impl
   | "outcome", [] =>
     withPos raw impl fun p =>
       match impl.splitOn " " with
@@ -370,6 +426,25 @@ def opSPos (op : String) (raw : Impl.RawBoard) (rest : List String) (impl : Stri
         else if c != bool01 (Spec.inCheck p p.side) then bad "is_check"
         else ok
       | _ => bad "malformed"
+  | "outcomeafter", [mv] =>
+    withPos raw impl fun p0 =>
+      match (parseMove mv).bind absMove with
+      | none => expect "n/a" impl
+      | some sm =>
+        if !(Spec.legalMoves p0).contains sm then expect "n/a" impl else
+        let p := Spec.apply p0 sm
+        match impl.splitOn " " with
+        | [o, d, h, c] =>
+          let outs := (Spec.outcomes p).map fmtSpecOutcome
+          let draws : List String :=
+            let mand := (if Spec.insufficient p then ["InsufficientMaterial"] else []) ++ (if p.half ≥ 150 then ["Moves75"] else [])
+            if !mand.isEmpty then mand else if p.half ≥ 100 then ["Moves50"] else ["none"]
+          if !outs.contains o then bad s!"outcome after the move: allowed={outs}"
+          else if !draws.contains d then bad s!"draw_simple after the move: allowed={draws}"
+          else if h != bool01 (!(Spec.legalMoves p).isEmpty) then bad "has_legal_moves after the move"
+          else if c != bool01 (Spec.inCheck p p.side) then bad "is_check after the move"
+          else ok
+        | _ => bad "malformed"
   | "fenformat", [] =>
     let p := abs raw
     let consistent := match raw.ep with | some e => Spec.rank e = Spec.epRank raw.side | none => true
